@@ -57,19 +57,19 @@ Theorem restart_shape s u snd a s' o p :
                  OH (a_tok a) (a_inst a') TRD 0%nat rNone; OH (a_tok a) (a_inst a') TL 0%nat rNone].
 Proof.
   intros Ha Hc Hst Hs. unfold try_restarted. rewrite Ha, Hc, Hst.
-  destruct (handle roles s u TT 0%nat snd) as [[s1 o1] p1] eqn:E1.
-  destruct (handle_one s u a TT snd s1 o1 p1 Ha Hs ltac:(intros n; discriminate) E1) as [O1 P1].
+  destruct (provide s (a_tok a)) as [s0 inst] eqn:Ep.
+  assert (G0 : get s0 u = Some a) by (unfold provide in Ep; inversion Ep; subst; exact Ha).
+  destruct (handle roles s0 u TT 0%nat snd) as [[s1 o1] p1] eqn:E1.
+  destruct (handle_one s0 u a TT snd s1 o1 p1 G0 Hs ltac:(intros n; discriminate) E1) as [O1 P1].
   rewrite (P1 ltac:(rewrite Hst; reflexivity)). unfold bind at 1.
-  destruct (handle_keeps_obj _ _ _ _ _ _ _ _ _ Ha E1) as (a1 & G1 & T1 & I1 & S1).
+  destruct (handle_keeps_obj _ _ _ _ _ _ _ _ _ G0 E1) as (a1 & G1 & T1 & I1 & S1).
   destruct (handle roles s1 u TTS 0%nat snd) as [[s2 o2] p2] eqn:E2.
   assert (Hs1 : is_sys (a_tok a1) = false) by (rewrite T1; exact Hs).
   destruct (handle_one s1 u a1 TTS snd s2 o2 p2 G1 Hs1 ltac:(intros n; discriminate) E2) as [O2 P2].
   rewrite (P2 ltac:(rewrite S1, Hst; reflexivity)). unfold bind.
   destruct (handle_keeps_obj _ _ _ _ _ _ _ _ _ G1 E2) as (a2 & G2 & T2 & I2 & S2).
-  destruct (provide s2 (a_tok a)) as [s3 inst] eqn:Ep.
-  assert (G3 : get s3 u = Some a2) by (unfold provide in Ep; inversion Ep; subst; exact G2).
-  set (s4 := upd_actor s3 u (fun b => w_st Alive (w_inst inst b))).
-  assert (G4 : get s4 u = Some (w_st Alive (w_inst inst a2))) by (exact (get_upd_actor_same s3 u (fun b => w_st Alive (w_inst inst b)) a2 G3)).
+  set (s4 := upd_actor s2 u (fun b => w_st Alive (w_inst inst b))).
+  assert (G4 : get s4 u = Some (w_st Alive (w_inst inst a2))) by (exact (get_upd_actor_same s2 u (fun b => w_st Alive (w_inst inst b)) a2 G2)).
   set (s5 := deliver_sys s4 (a_tok a) (a_tok a) SResume).
   destruct (idf_get u s4 s5 _ (id_deliver_sys s4 (a_tok a) (a_tok a) SResume) G4) as (a5 & G5 & T5 & I5).
   destruct (keep_deliver_sys s4 (a_tok a) (a_tok a) SResume u _ G4) as (a5' & G5' & S5 & _).
